@@ -21,7 +21,10 @@ def err_line(e):
     return l if isinstance(l, int) else -1
 
 def parse_in_mode(mode, text):
-    """Parser().parse_string(text) in strict (0) / non-strict (1) / capture (2) mode.
+    return parse_seq(mode, [text])
+
+def parse_seq(mode, texts):
+    """ONE Parser() instance reading the texts one after the other (parse_string each) in strict (0) / non-strict (1) / capture (2) mode.
     Returns [0, [entries, preamble, errors]] | [1, 0, line] (pybtex error escaped) | [2] (foreign exception).
     entries/preamble items carry a 'dirty' flag: an error was reported between the return of the
     previous BibliographyData.add_entry/add_to_preamble call and the return of this one."""
@@ -63,7 +66,8 @@ def parse_in_mode(mode, text):
         data.add_entry = add_entry
         data.add_to_preamble = add_to_preamble
         def run():
-            r = parser.parse_string(text)
+            for text in texts:
+                r = parser.parse_string(text)
             ents = [enc_entry(e, dirty.get(id(e), False)) for e in r.entries.values()]
             pre = [[1 if d else 0, v] for d, v in zip(pre_dirty, r.preamble_list)]
             if len(pre_dirty) != len(r.preamble_list):
